@@ -46,9 +46,10 @@ try:
 finally:
     sh('git -C /repo checkout -- .')
     for p, txt in _ev.items(): open(os.path.join(ROOT, 'evidence', p + '.json'), 'w').write(txt)      # evidence files are only ever committed from runs on the unchanged tree
-    sh('rm -f %s/replays/*.json' % ROOT)
+    sh('rm -rf %s/replays/*.json %s/replays/smt' % (ROOT, ROOT))
 d = os.path.join(ROOT, 'seeded', sid); os.makedirs(d, exist_ok=True)
-shutil.copy(patch, os.path.join(d, 'patch.diff')); shutil.copy(demo, os.path.join(d, 'demo.py'))
+for f_, n_ in ((patch, 'patch.diff'), (demo, 'demo.py')):
+    if os.path.abspath(f_) != os.path.abspath(os.path.join(d, n_)): shutil.copy(f_, os.path.join(d, n_))
 if os.path.exists(os.path.join(src, 'notes.md')): meta['needs_to_manifest'] = open(os.path.join(src, 'notes.md')).read()[:1500]
 meta['detected'] = any(x['exit'] == 1 for x in meta['ran'])
 json.dump(meta, open(os.path.join(d, 'meta.json'), 'w'), indent=1)
